@@ -84,7 +84,14 @@ def main(argv):
         a, b = sm.kill_batches(wide, n_rows)
         store.add([sm.build_trace(s) for s in a])
         traces = [sm.build_trace(s) for s in b]
-        print("START", flush=True)
+        first = [True]
+
+        def handler():       # tells the parent when the INSERT has really begun (serialisation is over)
+            if first[0]:
+                first[0] = False
+                print("START", flush=True)
+            return 0
+        store.conn.set_progress_handler(handler, 40)
         store.add(traces)
         print("DONE", flush=True)
         time.sleep(5)
